@@ -17,6 +17,10 @@ package packagerender
 //@ func package-operator.run/internal/packages/internal/packagerender.RenderObjectsWithFilter
 //@   at sort.Slice#1 assert [C13] hastype("[]string", arg0) && len(asstruct("[]string", arg0)) == len(pathObjectMap)
 //@   at sort.Slice#1 assert [C13] forall a int, b int :: 0 <= a && a < b && b < len(asstruct("[]string", arg0)) ==> asstruct("[]string", arg0)[a] != asstruct("[]string", arg0)[b]
-//@   loop 1 invariant [C13] 0 <= i && i == visitedcount() && i <= len(paths) && len(paths) == len(pathObjectMap)
-//@   loop 1 invariant [C13] forall a int :: 0 <= a && a < i ==> visited(paths[a])
-//@   loop 1 invariant [C13] forall a int, b int :: 0 <= a && a < b && b < i ==> paths[a] != paths[b]
+// (the keys are collected either by index into a pre-sized slice or by appending; the invariants are offered for both)
+//@   loop 1 invariant? [C13] 0 <= idx && idx == visitedcount() && idx <= len(paths) && len(paths) == len(pathObjectMap)
+//@   loop 1 invariant? [C13] forall a int :: 0 <= a && a < idx ==> visited(paths[a])
+//@   loop 1 invariant? [C13] forall a int, b int :: 0 <= a && a < b && b < idx ==> paths[a] != paths[b]
+//@   loop 1 invariant? [C13] len(paths) == visitedcount()
+//@   loop 1 invariant? [C13] forall a int :: 0 <= a && a < len(paths) ==> visited(paths[a])
+//@   loop 1 invariant? [C13] forall a int, b int :: 0 <= a && a < b && b < len(paths) ==> paths[a] != paths[b]
